@@ -27,6 +27,7 @@ def run(chk):
     e6.run_S6(chk)
     e3.run_L3(chk)
     e3.run_L1(chk)
+    e3.run_I7(chk)
     e3.run_L4(chk)
     e3.run_V1(chk)
     e3.run_I2(chk)
